@@ -3,7 +3,7 @@ import PynguinModel.Model.Cache
 /-! Line-protocol driver for C12: one JSON history per line in, one JSON result per line out.
 Runs `Ver.repo` (the code with the two proposed C12 repairs) on `stdSems`; after every operation it
 prints the operation's output and a snapshot of the chromosomes the operation touched, at the end the
-whole world. -/
+whole world.  Fitness values are printed exactly, in units of `2^-60`. -/
 open Lean PynguinModel.Cache
 
 deriving instance FromJson for SubEff
@@ -60,6 +60,8 @@ def touched (w : World) : Op → List Json
   | .setTest s .. => [snapSu w s]
   | .mutateSuite s _ => [snapSu w s]
   | .xoverSuite s t .. => [snapSu w s, snapSu w t]
+  | .crossTc i .. => [snapTc w i]
+  | .crossSuite s .. => [snapSu w s]
   | .addFit r _ => [refSnap w r]
   | .addCov r _ => [refSnap w r]
   | .invalidate r => [refSnap w r]
